@@ -119,3 +119,47 @@ Lemma ex_ivs_bytes :
 Proof.
   split; [|vm_compute; reflexivity]. cbn. unfold rows_ok_b. repeat split; try lia; repeat constructor.
 Qed.
+
+(* ------------------------------------------- lazy reader, rows, end to end *)
+From LJT Require Import model.LosslessLazy proofs.LosslessScanProofs proofs.LosslessLazyProofs.
+
+Section RealHuffmanEndToEnd.
+  Variable tabs : Z -> list Z * list Z.
+  Variable cts : Z -> ctbl.
+  Variable dts : Z -> dtbl.
+  Hypothesis Hlen : forall t, length (fst (tabs t)) = 17%nat.
+  Hypothesis Hc : forall t, make_c_derived (fst (tabs t)) (snd (tabs t)) 16 = Some (cts t).
+  Hypothesis Hd : forall t, make_d_derived (fst (tabs t)) (snd (tabs t)) true 16 = Some (dts t).
+  Hypothesis Hsz : forall t, sizes_ok (cts t).
+
+  Theorem real_samples_bytes_samples ri w R tbls psv prec pt mrows m tail :
+    (1 <= w)%nat -> (ri = 0 \/ ((1 <= R)%nat /\ ri = Z.of_nat (R * w))) -> ri < 4294967296 ->
+    2 <= prec <= 16 -> 1 <= psv <= 7 -> 0 <= pt < prec ->
+    mrows_ok prec (length tbls) w mrows -> (1 <= length mrows)%nat -> m <> 0 -> m <> 255 ->
+    exists bytes, encode_scan_e2e cts (length tbls) ri psv prec pt tbls w mrows = Some bytes /\
+      exists st' pad,
+        decode_scan_e2e (huff_dec dts) (length tbls) ri psv prec pt tbls w (length mrows) (bytes ++ 255 :: m :: tail)
+        = Some (map (map (map (clear_low pt))) mrows, st') /\ wf st' pad m tail.
+  Proof.
+    intros Hw HR H32. apply (samples_bytes_samples cts Hsz (huff_dec dts)
+      (huff_dec_ct_code tabs cts dts Hlen Hc Hd Hsz) ri w R Hw HR H32 tbls).
+  Qed.
+
+  (* the lazy row-by-row reader and the whole-segment reader agree on what the encoder writes *)
+  Theorem real_lazy_vs_segment ri w R tbls ivs raws m tail :
+    (1 <= w)%nat -> (ri = 0 \/ ((1 <= R)%nat /\ ri = Z.of_nat (R * w))) -> ri < 4294967296 ->
+    Forall2 (seg_ok cts) ivs raws -> ivs_ok ri w R ivs -> ivs_tbls_ok w tbls ivs -> m <> 0 -> m <> 255 ->
+    dec_intervals (huff_dec dts) (map tblseq ivs) 0 (join raws 0 ++ 255 :: m :: tail)
+      = Some (map canon_iv ivs, Some (m, tail)) /\
+    exists rows fin pad,
+      dec_rows_lazy (huff_dec dts) ri (Z.of_nat w) tbls w (length (concat ivs))
+        {| br_buf := []; br_inp := join raws 0 ++ 255 :: m :: tail; br_marker := None; br_insuf := false |}
+        (ri / Z.of_nat w) 0 = Some (rows, fin) /\
+      map snd rows = map (deint w tbls) (concat ivs) /\ wf (fst (fst fin)) pad m tail.
+  Proof.
+    intros Hw HR H32 F2 Hok Htb Hm0 Hm255. split.
+    - apply (dec_intervals_join cts Hsz ri w R Hw HR (huff_dec dts) (huff_dec_ct_code tabs cts dts Hlen Hc Hd Hsz)); try assumption; try lia.
+      destruct ivs; [destruct Hok|discriminate].
+    - apply (lazy_scan cts Hsz (huff_dec dts) (huff_dec_ct_code tabs cts dts Hlen Hc Hd Hsz) ri w R Hw HR H32 tbls); assumption.
+  Qed.
+End RealHuffmanEndToEnd.
